@@ -1,7 +1,7 @@
-import DcmVerif.Proofs.Code
-/-! The tie by proof: functions translated from the Python source on every run (`tools/gen_code.py` →
-`Generated/Code.lean`) are the model functions the property theorems speak about. Statements only;
-proofs are by reference to `Proofs/Code.lean`. -/
+import DcmVerif.Proofs.CodeMeta
+/-! The tie by proof (dcmmeta.py): functions translated from the Python source on every run
+(`tools/gen_code.py` → `Generated/Code.lean`) are the model functions the property theorems speak about.
+Statements only; proofs are by reference to `Proofs/CodeMeta.lean`. -/
 set_option autoImplicit false
 set_option linter.unusedVariables false
 open Cls
@@ -27,16 +27,6 @@ theorem get_multiplicity_is_model (e : DExt κ α) (h3 : 3 ≤ e.shape.length) (
     (c : Cls) (hv : c ∈ validClasses e.shp) :
     Py.get_multiplicity e.shape (e.sliceDim.map fun d => e.shape.getD d 1) c = .ok (mult e.shp c) :=
   Src.get_multiplicity_eq e h3 h5 c hv
-
-/-- **the file index `get_data` computes is the model's `fileIdx`** -/
-theorem file_idx_is_model (rows cols S T V v t s : Nat) :
-    Py.file_idx_slice [rows, cols, S, T, V] v t s = Stk.fileIdx S T s t v :=
-  Src.file_idx_eq rows cols S T V v t s
-
-/-- one file per volume: the index is the volume number -/
-theorem file_idx_volume_is_model (rows cols S T V v t : Nat) :
-    Py.file_idx_volume [rows, cols, S, T, V] v t = v * T + t :=
-  Src.file_idx_volume_eq rows cols S T V v t
 
 theorem get_meta_index_is_model (shape idx : List Nat) (sd : Nat) (al : Bool) (e : ExtGeom) (cl : Cls) (vals : List α)
     (h3 : 3 ≤ shape.length) (h5 : shape.length ≤ 5) (hsd3 : sd < 3) (hc : cl ≠ gconst)
@@ -76,30 +66,7 @@ theorem meta_valid_is_model (e : ExtGeom) (img : Img) (c : Cls)
       .ok (metaValid e img c) :=
   Src.meta_valid_eq e img c hisd hesd h4
 
-/-- **the count checks of `get_shape` as written in dcmstack.py are the count conjuncts of the model's
-    acceptance test**, and the dimensions they derive are the model's `dimS`, `dimT`, `dimV` -/
-theorem get_shape_counts_is_model (n s v : Nat) (sp : Bool) :
-    Py.get_shape_counts n s v sp =
-      if countsOk n s v sp then .ok (s, n / s / v, v) else .error PyErr.invalidStack :=
-  Src.get_shape_counts_eq n s v sp
-
-/-- the model's acceptance test is those count conjuncts and the two order checks of `_chk_order` -/
-theorem accept_is_counts_and_order (spacingOk : List Int → Bool) (files : List F) :
-    acceptB spacingOk files =
-      (countsOk files.length (dimS files) (dimV files) (spacingOk (distinctSorted (files.map (·.p)))) &&
-       (chunks (dimT files * dimS files) (dimV files)
-          (chkSort (dimS files) (files.length / dimS files) files)).all allSameV &&
-       (chunks (dimS files) (files.length / dimS files)
-          (chkSort (dimS files) (files.length / dimS files) files)).all
-        (fun b => b.map (·.p) == distinctSorted (files.map (·.p)))) :=
-  Src.acceptB_counts spacingOk files
-
-/-- **the trimming block of `get_data` as written in dcmstack.py is the model's `stackTrim`** -/
-theorem get_data_trim_is_model (a : Wrap.Arr α) (rows cols S T V : Nat) :
-    Py.get_data_trim a [rows, cols, S, T, V] = .ok (Wrap.stackTrim a T V) :=
-  Src.get_data_trim_eq a rows cols S T V
-
-/-- the translator translated every function it is asked for -/
-theorem translator_complete : Gen.codeMissing = [] := rfl
+/-- the translator translated every function of dcmmeta.py it is asked for -/
+theorem translator_complete_meta : Gen.codeMissingMeta = [] := rfl
 
 end Source
